@@ -108,6 +108,10 @@ class Builder:
             return decode(values.get(name, DEFAULTS[typ]))
         if typ.startswith("list["):
             return list(decode(values.get(name, [])))
+        if typ.startswith("alist["):
+            n_ = int(values.get(name + "!len", 0) or 0)
+            vs_ = values.get(name + "[*].v", [])
+            return [decode(x) for x in vs_[:n_]]
         if typ.startswith("fixed[") or typ.startswith("tuple["):
             inner = split_top(typ[typ.index("[") + 1:-1])
             items = [self.make(t, f"{name}.{i}", values) for i, t in enumerate(inner)]
